@@ -69,18 +69,18 @@ pub fn eval(c: &HCase) -> Eval {
         match r {
             crate::host::Guarded::Done(Ok(got)) => {
                 if got != want {
-                    ev.viol.push(Violation { prop: "C09", clause: "derivation_matches_ibc_hooks", step: i + 1, msg: format!("derive({}, {}, {}) = {} but ibc-hooks derives {}", ch, sender, c.prefix, got, want) });
+                    ev.viol.push(Violation { stop: true, prop: "C09", clause: "derivation_matches_ibc_hooks", step: i + 1, msg: format!("derive({}, {}, {}) = {} but ibc-hooks derives {}", ch, sender, c.prefix, got, want) });
                 }
                 if let Some(prev) = seen.get(&got) {
                     if *prev != (ch.clone(), sender.clone()) {
-                        ev.viol.push(Violation { prop: "C09", clause: "no_collision", step: i + 1, msg: format!("{:?} and {:?} both map to {}", prev, (ch, sender), got) });
+                        ev.viol.push(Violation { stop: true, prop: "C09", clause: "no_collision", step: i + 1, msg: format!("{:?} and {:?} both map to {}", prev, (ch, sender), got) });
                     }
                 }
                 seen.insert(got.clone(), (ch.clone(), sender.clone()));
                 h.str(&got);
             }
-            crate::host::Guarded::Done(Err(e)) => ev.viol.push(Violation { prop: "C09", clause: "derivation_matches_ibc_hooks", step: i + 1, msg: format!("derive({}, {}, {}) failed: {:?}", ch, sender, c.prefix, e) }),
-            _ => ev.viol.push(Violation { prop: "C16", clause: "panic", step: i + 1, msg: "derive_intermediate_sender panicked".into() }),
+            crate::host::Guarded::Done(Err(e)) => ev.viol.push(Violation { stop: true, prop: "C09", clause: "derivation_matches_ibc_hooks", step: i + 1, msg: format!("derive({}, {}, {}) failed: {:?}", ch, sender, c.prefix, e) }),
+            _ => ev.viol.push(Violation { stop: true, prop: "C16", clause: "panic", step: i + 1, msg: "derive_intermediate_sender panicked".into() }),
         }
     }
     // channel ids accepted by validation never contain the separator, so "<channel>/<sender>" splits uniquely
@@ -96,7 +96,7 @@ pub fn eval(c: &HCase) -> Eval {
         if let crate::host::Guarded::Done(true) = r {
             ev.stats.probe("channel_candidate_accepted");
             if ch.contains('/') || !ch.starts_with("channel-") {
-                ev.viol.push(Violation { prop: "C09", clause: "channel_format_unambiguous", step: 100 + i, msg: format!("channel id {:?} accepted by validation", ch) });
+                ev.viol.push(Violation { stop: true, prop: "C09", clause: "channel_format_unambiguous", step: 100 + i, msg: format!("channel id {:?} accepted by validation", ch) });
             }
         }
         h.str(ch);
